@@ -525,13 +525,23 @@ func AppMessage(id string) *quickfix.Message {
 func (l *Lab) Establish(p *Peer, hbt int, extra ...fixwire.Field) bool {
 	if !l.Snap().Connected {
 		if err := l.Connect(); err != nil {
+			atomic.AddInt64(&EstablishFailed, 1)
 			return false
 		}
 	}
 	l.In("Logon", p.Logon(p.NextOut, hbt, extra...))
 	p.NextOut++
-	return l.Snap().LoggedOn
+	if l.Snap().LoggedOn {
+		atomic.AddInt64(&EstablishOK, 1)
+		return true
+	}
+	atomic.AddInt64(&EstablishFailed, 1)
+	return false
 }
+
+// EstablishOK / EstablishFailed count the outcomes of Establish in this process: a workload whose plain logons
+// mostly fail observed nothing about its property (the parent reports it as broken, not as held).
+var EstablishOK, EstablishFailed int64
 
 // Settings helpers.
 func DictSettings(begin string) map[string]string {
